@@ -438,6 +438,14 @@ class VersionLibrary(Informational):
         strs, _ = V.harvest_constants()
         pool = V.version_pool(MALFORMED_STRINGS[:20] + [s_ for s_ in strs if "20" in s_ or "ersion" in s_][:15] + V.HOSTILE_TEXT[:18])
         out = [{"op": "consts"}]
+        try:  # which functions the translator could regenerate from the current source (the others use the reference definition)
+            import re as _re
+            from ..core import LEAN
+            m_ = _re.search(r"def notRegenerated : List String := \[(.*)\]", (LEAN / "Verif" / "Gen" / "VersionLib.lean").read_text())
+            if m_ and m_.group(1).strip():
+                ctx.notes.append("version-library: source outside the translator's subset, reference definition used for: " + m_.group(1))
+        except Exception:
+            pass
         # single versions: the pool, every calendar date of 2024..2026 (thorough: 1995..2034), seeded dddd-dd-dd in several scripts
         ones = list(pool)
         for d in all_dates(2024 if quick else 1995, 2026 if quick else 2034):
